@@ -1,0 +1,11 @@
+//go:build verif
+
+// Contracts for the deductive verifier in /verif (govc). Comment-only file: with the
+// "verif" build tag off it is invisible to the compiler.
+package http
+
+//@ func GetPathQueryFragment
+//@   ensures  path: path == PathOnly(fullPath)
+//@   ensures  query: query == QueryOnly(fullPath)
+//@   ensures  fragment: fragment == FragOnly(fullPath)
+//@   ensures  recompose: fullPath == path ++ ite(HasQuery(fullPath), "?" ++ query, "") ++ ite(IndexOf(fullPath, "#") >= 0, "#" ++ fragment, "")
